@@ -1414,10 +1414,18 @@ class Engine:
         except SpecError:
             return
 
+    WHILE_KEYS = {'inv', 'decreases', 'ghost_at_entry', 'ghost_at_entry_vals', 'iter_ensures', 'exit_ensures', 'modifies_objects', 'modifies_fields',
+                  'hints', 'exit_hints', 'header'}
+
     def exec_while(self, s, env):
         k, spec = self.loop_spec(s)
         if spec is None:
             raise Unsupported('while loop #{} without invariant (line {})'.format(k, s.lineno))
+        unknown = set(spec) - self.WHILE_KEYS
+        if unknown:
+            raise SpecError('while loop #{}: contract keys {} are not interpreted for while loops'.format(k, sorted(unknown)))
+        if spec.get('hints') or spec.get('exit_hints'):
+            raise SpecError('while loop #{}: hints are not interpreted for while loops'.format(k))
         if s.orelse:
             raise Unsupported('while/else')
         self.ghosts_at_entry(spec, env)
@@ -1429,18 +1437,29 @@ class Engine:
         if self.choose(2) == 0:
             self.assume(toz(guard))
             dec0 = self.spec_eval(spec['decreases'], env) if 'decreases' in spec else None
+            self.frames[-1]['ycount'] = 0
             try:
                 self.exec_block(s.body, env)
             except BreakSig:
                 return
             except ContinueSig:
                 pass
+            if spec.get('iter_ensures'):
+                e_it = dict(env)
+                e_it['_yielded_now'] = z3.IntVal(self.frames[-1].get('ycount', 0))
+                for t in spec['iter_ensures']:
+                    self.oblige('yield', 'in every iteration: ' + t, self.spec_eval(t, e_it), s.lineno)
             self.check_inv(spec, env, 'inv-pres', s.lineno)
             if dec0 is not None:
                 d1 = self.spec_eval(spec['decreases'], env)
                 self.oblige('decreases', spec['decreases'], z3.And(toz(dec0) >= 0, toz(d1) < toz(dec0)), s.lineno, decisive=False)
             raise PathEnd()
         self.assume(toz(znot(guard)))
+        for t in spec.get('exit_ensures', []):       # decisive statements about the finished loop
+            try:
+                self.oblige('post', 'at loop exit: ' + t, self.spec_eval(t, env), s.lineno)
+            except SpecError as se:
+                self.oblige('hint', '{} [not expressible: {}]'.format(t, se), False, s.lineno, decisive=False)
 
     def desugar_nest(self, s, env):
         """`for T in product(A, B)` / `for (a, b) in combinations(R, 2)` / `for (w, (a, b)) in product(R, combinations(D, 2))` over
@@ -2406,6 +2425,11 @@ class Engine:
                 self.generic_elem -= 1
             n = z3.simplify(zmax(toz(it.hi) - toz(it.lo), z3.IntVal(0)))
             return VPairs(n, z3.Lambda([t], toz(a)), z3.Lambda([t], toz(b)))
+        if isinstance(it, VRange) and it.step == 1 and isinstance(g.target, ast.Name) and isinstance(e.elt, ast.List) and not e.elt.elts:
+            # [[] for i in range(lo, hi)]: that many fresh empty lists
+            I = z3.IntSort()
+            n = z3.simplify(zmax(toz(it.hi) - toz(it.lo), z3.IntVal(0)))
+            return VArr2(n, z3.K(I, z3.IntVal(0)), z3.K(I, z3.K(I, z3.IntVal(0))))
         if isinstance(it, VRange) and it.step == 1 and isinstance(g.target, ast.Name):
             # [f(t) for t in range(lo,hi)] -> (length, lambda-array); f is evaluated once, symbolically
             t = self.fresh('cmp_' + g.target.id)
